@@ -662,6 +662,10 @@ theorem tie_sharedClone : Gen.Iter.sharedClone = [
 ] := by decide
 
 theorem tie_sharedFetchMore : Gen.Iter.sharedFetchMore = [
+  "if s.state.Load().err != nil",
+  "{",
+  "return",
+  "}",
   "var buf [bufferSize]*openfgav1.Tuple",
   "read, e := s.ir.Read(context.Background(), buf[:])",
   "state := s.state.Load()",
